@@ -4,7 +4,7 @@ From C09 Require Import Model.
 
 Definition outcome_eqb (a b : outcome) : bool :=
   match a, b with
-  | OOk, OOk | OErr, OErr | OSlowOk, OSlowOk | OTimeout, OTimeout => true
+  | OOk, OOk | OErr, OErr | OSlowOk, OSlowOk | OTimeout, OTimeout | OCtx, OCtx => true
   | _, _ => false
   end.
 Definition tier_eqb (a b : tier) : bool :=
@@ -76,13 +76,16 @@ Definition tier_bud (ts : list shard) : nat :=
   | [] => 0
   | sh :: r => fold_right Nat.min (shard_bud sh) (map shard_bud r)
   end.
-Definition spec_live (tries : nat) (cin hin : list shard_in) (ok : bool) : bool :=
-  if tier_bud (map mk_shard cin) + tier_bud (map mk_shard hin) <? tries then ok else true.
+Definition spec_live (tries : nat) (cin hin : list shard_in) (cancel : option nat) (ok : bool) : bool :=
+  match cancel with
+  | Some _ => true   (* the request context expired: no acknowledgement is owed *)
+  | None => if tier_bud (map mk_shard cin) + tier_bud (map mk_shard hin) <? tries then ok else true
+  end.
 
-Definition spec_ok (tries : nat) (pay : N) (cin hin : list shard_in) (ok : bool) (log : list visit) : bool :=
+Definition spec_ok (tries : nat) (pay : N) (cin hin : list shard_in) (cancel : option nat) (ok : bool) (log : list visit) : bool :=
   (if ok then spec_ack pay Cold cin log && spec_ack pay Hot hin log else true)
   && skips_ok pay cin hin [] log
-  && spec_live tries cin hin ok.
+  && spec_live tries cin hin cancel ok.
 
 (* ------------------------------------------------------------------ cases *)
 
@@ -93,9 +96,10 @@ Definition the_pay : N := 0%N.
 Inductive case :=
 (* tries = consts.BulkMaxTries; cin/hin = scripts of the long-term / hot tier; cord/hord = the
    shard orders the implementation was observed to use, one per sendBulkToStores invocation
-   (completed to a permutation by the harness); impl_ok = (StoreDocuments returned nil);
+   (completed to a permutation by the harness); cancel = Some k when the caller's context was
+   made done at the end of the k-th shard visit (0 = before the call); impl_ok = (StoreDocuments returned nil);
    impl_log = observed shard visits with the calls of each (sorted by replica) *)
-| CBulk (tries : nat) (cin hin : list shard_in) (cord hord : list (list nat))
+| CBulk (tries : nat) (cin hin : list shard_in) (cord hord : list (list nat)) (cancel : option nat)
         (impl_ok : bool) (impl_log : list visit).
 
 (* an order is legal iff it is a permutation of 0..n-1 *)
@@ -105,8 +109,8 @@ Definition legal_order (n : nat) (o : list nat) : bool :=
 (* model output = implementation output, for the observed (legal) shard orders, all consumed *)
 Definition case_agrees (c : case) : bool :=
   match c with
-  | CBulk tries cin hin cord hord impl_ok impl_log =>
-      let '(s, log, ok) := store_documents tries the_pay cin hin cord hord in
+  | CBulk tries cin hin cord hord cancel impl_ok impl_log =>
+      let '(s, log, ok) := store_documents tries the_pay cin hin cord hord cancel in
       forallb (legal_order (length cin)) cord && forallb (legal_order (length hin)) hord
       && Bool.eqb ok impl_ok && list_eqb visit_eqb log impl_log
       && match cold_ord s, hot_ord s with [], [] => true | _, _ => false end
@@ -115,7 +119,7 @@ Definition case_agrees (c : case) : bool :=
 (* implementation output satisfies the property (independent of the model's algorithm) *)
 Definition case_spec_ok (c : case) : bool :=
   match c with
-  | CBulk tries cin hin _ _ impl_ok impl_log => spec_ok tries the_pay cin hin impl_ok impl_log
+  | CBulk tries cin hin _ _ cancel impl_ok impl_log => spec_ok tries the_pay cin hin cancel impl_ok impl_log
   end.
 
 Definition diff_indices (l : list case) : list nat := bad_indices (fun c => negb (case_agrees c)) l.
